@@ -654,21 +654,22 @@ func TestC30(t *testing.T) {
 			default:
 				return
 			}
-			if c.fam == "bitand" {
-				// all-constant & chains are masked with 0xffffffff by the folder
-				r := compileAndCall("function ("+strings.Join(allParams, ", ")+") { "+renderCx(c, pname)+" }", allArgs...)
-				if !r.failed() && r.v != nil {
-					if n, ok := r.v.IfInt(); ok && (n < 0 || n > 0xffffffff) {
-						absBitor = true
-					}
-				}
-			}
+			wide := false
 			for _, o := range c.es {
 				// an operand that is (or folds to) the absorbing element
 				r := compileAndCall("function ("+strings.Join(allParams, ", ")+") { "+renderCx(o, pname)+" }", allArgs...)
-				if !r.failed() && r.v != nil && absorbingVal(c.fam, r.v) {
+				if r.failed() || r.v == nil {
+					continue
+				}
+				if absorbingVal(c.fam, r.v) {
 					has = true
 				}
+				if n, ok := r.v.IfInt(); ok && (n < 0 || n > 0xffffffff) {
+					wide = true
+				}
+			}
+			if wide && (c.fam == "bitand" || c.fam == "bitor" && has) {
+				absBitor = true
 			}
 			if !has {
 				return
@@ -676,8 +677,6 @@ func TestC30(t *testing.T) {
 			r := compileAndCall("function ("+strings.Join(allParams, ", ")+") { "+renderCx(c, pname)+" }", allArgs...)
 			if r.failed() {
 				absFails = true
-			} else if c.fam == "bitor" && !r.v.Equal(core.IntVal(0xffffffff)) {
-				absBitor = true
 			}
 		})
 		if absFails {
